@@ -164,4 +164,19 @@ theorem deletion_returns_address_and_teids (cfg : Agent.Cfg) (w : Agent.World) (
       (Agent.deleteSession cfg w a seid).1.teid.used (p.tunnelTEID - 1) = false :=
   Agent.deletion_returns_address_and_teids cfg w a seid s hf
 
+/-- the same for the other ways a session ends, again in every state: a Session Report answered "context not found" … -/
+theorem report_returns_address_and_teids (cfg : Agent.Cfg) (w : Agent.World) (a seid : Nat) (s : Agent.Session)
+    (hf : (w.conn a).sessions.find? (·.lseid = seid) = some s) :
+    s.lseid ∉ Agent.poolKeys (Agent.reportContextNotFound cfg w a seid).pool ∧
+    ∀ p ∈ s.pdrs, p.chooseTeid = true → 1 ≤ p.tunnelTEID →
+      (Agent.reportContextNotFound cfg w a seid).teid.used (p.tunnelTEID - 1) = false :=
+  Agent.report_returns_address_and_teids cfg w a seid s hf
+
+/-- … and the ending of the association (release, read timeout, heartbeat failure, stop), for every session it holds -/
+theorem association_ending_returns_addresses_and_teids (cfg : Agent.Cfg) (w : Agent.World) (a : Nat) (s : Agent.Session)
+    (hs : s ∈ (w.conn a).sessions) :
+    s.lseid ∉ Agent.poolKeys (Agent.shutdownConn cfg w a).pool ∧
+    ∀ p ∈ s.pdrs, p.chooseTeid = true → 1 ≤ p.tunnelTEID → (Agent.shutdownConn cfg w a).teid.used (p.tunnelTEID - 1) = false :=
+  Agent.shutdown_returns_addresses_and_teids cfg w a s hs
+
 end Props.C05
